@@ -135,6 +135,10 @@ def cases(tier, seed):
             if use == "int_variant" and s == "":
                 pass
             out.append(mk(use, [s]))
+    # triples: a pair that collides on the first pass and that the fallback separates, plus a third value that literally IS a fallback name
+    for tri in (["a_b", "a__b", "AXb"], ["a-b", "a--b", "AXXb"], ["a_b", "a__b", "AB"], ["x_y", "x-y", "XXy", "XY"], ["A_b", "aB", "AXb"]):
+        out.append(mk("variant", tri))
+        out.append(mk("member", tri))
     return out
 
 
